@@ -107,6 +107,10 @@ def run_children(case, ctx: Ctx):
                     out["hashseed"], child["hashseed"]))
             outs.append(out)
             ctx.rec.cover("hash_probe_values", out["hash_of_probe"])
+            if c > 0:
+                for probe in ("set_order_probe", "listing_probe", "scandir_probe", "key_order_probe"):
+                    if out[probe] != outs[0][probe]:
+                        ctx.rec.count("children_whose_%s_differs_from_child0" % probe)
         ctx.rec.count("child_processes", len(outs))
         return outs
     finally:
